@@ -213,7 +213,8 @@ fn transform(
             ));
         }
 
-        for index in 0..n {
+        // All of them: n counts the successes, it does not say where they are
+        for index in 0..operands.len() {
             operands[index] = operands[index] - buffer[index];
         }
 
